@@ -104,7 +104,7 @@ pub fn raw_strings(rs: &str) -> Vec<String> {
     v
 }
 
-pub const HANDWRITTEN: [(&str, &str); 11] = [
+pub const HANDWRITTEN: [(&str, &str); 12] = [
     // tiny programs for the features no short test program uses: default and named arguments, struct and enum
     // constructors with defaults, member functions (C04 and C34 name them in their ALWAYS lists). Parameters are
     // annotated: with inferred parameters the identifier neighbours `f + b` / `g - b` are two more inputs of the known
@@ -115,6 +115,8 @@ pub const HANDWRITTEN: [(&str, &str); 11] = [
     ("tiny/enum-defaults", "type Sh = Ci(r: int = 1) | Sq\nSh.Ci(r = 2)\nSh.Ci()\n"),
     ("tiny/member-fn", "extend int {\n  fn p(self, d: int = 1) -> int = self + d\n}\n(2).p(3)\n"),
     // an aliased import used through the alias (its neighbourhood contains aliases of modules that do not exist)
+    // member functions called through the type name (deleting the receiver leaves an empty argument list)
+    ("tiny/qualified-member", "type Pe = {\n  n: int\n}\nextend Pe {\n  fn age(self) -> int = self.n\n}\nlet p = Pe(3)\nPe.age(p)\narray.len([1])\n"),
     ("tiny/alias-import", "use core/colors as co\nlet colors = co.red(1)\nco.blue(colors)\n"),
     ("hand/accents", "// café ☕ commentaire\nlet s = \"héllo wörld\"\nprintln(s)\n"),
     ("hand/japanese", "let a = \"日本語\"\nlet b = 'テキスト'\nprintln(a .. b) // 連結\n"),
